@@ -43,7 +43,8 @@ VARIABLES
           \*   kf, kg, ke, kr, flat, cap, smin, slo, shi, smax, delta, ps, ds, lat, assert,
           \*   pb0 (shaft power before the first step: a warmed-up engine), haux (the hybrid's hard-coded generator
           \*   aux load), split2 (2 * HybridLoco.fuel_res_split), gssr / gssk (2 * fuel_res_ratio / gss_interval, 0 = None:
-          \*   Level B models the fixed split only)]
+          \*   Level B models the fixed split only), lpub / ekx (LocoPub applies to this mapped unit / max dx/du of its
+          \*   drivetrain map)]
   pc,     \* "aux" -> "pub" -> "solve" -> ("adv" after an accepted step) -> "aux"
   st,     \* the step being executed: [eng, dtq, req, cls, acc]
   pub,    \* limits published by set_cur_pwr_max_out for this step (PubKeys) incl. the aux load they assumed
@@ -177,13 +178,24 @@ ResCharge   == Lim /\ HasRes /\ p.elec < 0 => LeEps(-p.elec, pub.charge)
 (* BEL: elec <= disch(1+eps) => req <= loco_pub + eps*disch/ke; hybrid: both sources (and ASSUME        *)
 (* pwr_aux <= haux: the published limit subtracts pwr_aux twice, the solve loads the generator with     *)
 (* haux once).  Stated for flat maps only (with load-dependent eta the published wheel limit is         *)
-(* evaluated at another operating point).                                                               *)
+(* evaluated at another operating point) and, below, for units whose only load-dependent map is the       *)
+(* drivetrain's.                                                                                        *)
 AbsEpsQ == cfg.ps \div 1000 + 1
 Slack == (CASE cfg.kind = "conv" -> Max2(cfg.rfc \div 1000, AbsEpsQ) \div (cfg.kg * cfg.ke)
             [] cfg.kind = "bel"  -> Max2(cfg.rres \div 1000, AbsEpsQ) \div cfg.ke
             [] OTHER             -> (Max2(cfg.rfc \div 1000, AbsEpsQ) \div cfg.kg + Max2(cfg.rres \div 1000, AbsEpsQ)) \div cfg.ke + 2)
          + 2 + T
-LocoPub     == Lim /\ cfg.flat /\ st.req > 0 /\ (Hyb => pub.aux <= cfg.haux) => p.out <= pub.loco + Slack
+(* Load-dependent drivetrain map (cfg.lpub = 1: every component upstream of the drivetrain has an exact electrical *)
+(* limit - flat engine / generator, or a battery, whose limits are electrical whatever its map).  Let u = input and  *)
+(* x = output fraction, x = u*eta(x).  The code publishes P* = u_max * eta_in(u_max) with eta interpolated over the   *)
+(* INPUT fractions x_i/eta_i.  Within a map segment eta_out is linear in x, so u(x) = x/eta_out(x) is concave for a   *)
+(* rising and convex for a falling segment (x/eta increasing <=> the segment's line is positive at x = 0), hence      *)
+(* eta_in(u(x)) >= eta_out(x) or, with Delta < 0, the reverse on the interpolation parameter: in both cases           *)
+(* P* >= x_true(u_max); outside the grid both lookups are clamped to the same value.  So accepted => elec_in <=       *)
+(* u_max(1+eps) => out <= x_true(u_max) + eps*src*ekx <= P* + eps*src*ekx, ekx = max dx/du = max eta^2/alpha.          *)
+SlackMap == Max2((IF cfg.kind = "conv" THEN cfg.rfc \div cfg.kg ELSE cfg.rres) \div 1000, AbsEpsQ) * cfg.ekx + 2 + T
+LocoPub     == Lim /\ (cfg.flat \/ cfg.lpub = 1) /\ st.req > 0 /\ (Hyb => pub.aux <= cfg.haux)
+                 => p.out <= pub.loco + (IF cfg.flat THEN Slack ELSE SlackMap)
 WithinLimits == FcRating /\ FcTransient /\ GenRating /\ EdrvRating /\ ResRating /\ ResDisch /\ ResCharge /\ LocoPub
 
 (* ASSUME floor <= rating (FuelConverter::set_cur_pwr_out_max applies .min(rating) before .max(floor)) *)
